@@ -181,6 +181,9 @@ func (fc *FnCtx) anchorEnv() *Env {
 			return Val{}, false
 		}
 		val := fc.operand(v)
+		if isAddr && isArrayPtr(val.T) {
+			return val, true
+		}
 		if isAddr {
 			lv := fc.loadPtr(st, val)
 			if fc.cur != nil {
